@@ -436,6 +436,11 @@ func init() {
 		return structure{uint64(0), int64(base + X.clock), (*value)(nil)}
 	}
 	I["time.Sleep"] = func(fr *frame, a []value) value { return nil }
+	// uuid: a fresh opaque string per call (never equal to an earlier one)
+	I["github.com/google/uuid.NewString"] = func(fr *frame, a []value) value {
+		X.uuids++
+		return fmt.Sprintf("00000000-0000-4000-8000-%012d", X.uuids)
+	}
 	I["time.runtimeNano"] = func(fr *frame, a []value) value { return int64(1) }
 	I["time.now"] = func(fr *frame, a []value) value { return tuple{int64(1893456000), int32(0), int64(1)} }
 }
@@ -446,4 +451,22 @@ func bytesToString(b []value) string {
 		bs[i] = v.(byte)
 	}
 	return string(bs)
+}
+
+func init() {
+	// go-libs metadata.Metadata.Merge is implemented with dario.cat/mergo (reflection);
+	// for map[string]string with WithOverride it is: copy m1, then every key of m2 overrides.
+	intrinsics["(github.com/formancehq/go-libs/v5/pkg/types/metadata.Metadata).Merge"] = func(fr *frame, a []value) value {
+		ret := makeMap(types.Typ[types.String], 0).(*omap)
+		for _, src := range a[:2] {
+			m, _ := src.(*omap)
+			if m == nil {
+				continue
+			}
+			for i, k := range m.keys {
+				ret.insert(k, m.vals[i])
+			}
+		}
+		return ret
+	}
 }
